@@ -396,7 +396,32 @@ pub fn exact(args: &[String]) {
                         if replies.is_empty() {
                             break;
                         }
-                        let r = replies[rng.below(replies.len())].clone();
+                        // every fourth sequence the opponent blunders: the reply that leaves its most valuable
+                        // man capturable (the value of the position then jumps between successive searches)
+                        let r = if s % 4 == 2 {
+                            let mut best = (0i32, replies[rng.below(replies.len())].clone());
+                            for cand in replies.iter() {
+                                let mut b2 = board.clone();
+                                if cand.apply(&mut b2).is_err() {
+                                    continue;
+                                }
+                                b2.toggle_turn();
+                                let t2 = b2.turn();
+                                let val = g
+                                    .generate_moves(&mut b2, t2)
+                                    .iter()
+                                    .filter_map(|m| m.captures())
+                                    .map(|c| [1, 3, 3, 5, 9, 0][c.0 as usize])
+                                    .max()
+                                    .unwrap_or(0);
+                                if val > best.0 {
+                                    best = (val, cand.clone());
+                                }
+                            }
+                            best.1
+                        } else {
+                            replies[rng.below(replies.len())].clone()
+                        };
                         if r.apply(&mut board).is_err() {
                             break;
                         }
